@@ -7,6 +7,9 @@ fn unhex(s: &str) -> Vec<u8> {
     (0..s.len() / 2).map(|i| u8::from_str_radix(&s[2 * i..2 * i + 2], 16).unwrap()).collect()
 }
 fn mk(v: &serde_json::Value) -> Value {
+    if let Some(es) = v["elems"].as_array() {
+        return Value::Array(Arc::new(es.iter().map(mk).collect()));
+    }
     match v["kind"].as_u64().unwrap_or(0) {
         0 => Value::Integer(v["int"].as_i64().unwrap_or(0)),
         1 => Value::Boolean(v["bool"].as_bool().unwrap_or(false)),
@@ -21,7 +24,10 @@ macro_rules! ops {
         match $name {
             $(stringify!($op) => {
                 let o = $op::stub();
-                let sig = o.signature($ctx.clone(), $args);
+                let sig = match catch_unwind(AssertUnwindSafe(|| o.signature($ctx.clone(), $args))) {
+                    Ok(s) => s,
+                    Err(_) => { println!("VERIF-OUTCOME {}", serde_json::json!({"sig_panicked": true, "panicked": true, "sig_ok": false})); return; }
+                };
                 let sig_s = sig.as_ref().map(|t| t.to_string()).map_err(|e| e.to_string());
                 if sig.is_err() { Some((sig_s, None)) } else {
                     let r = catch_unwind(AssertUnwindSafe(|| o.call($ctx.clone(), $args)));
@@ -38,11 +44,39 @@ fn verif_replay() {
     let path = match std::env::var("VERIF_REPLAY") { Ok(p) => p, Err(_) => return };
     let case: serde_json::Value = serde_json::from_str(&std::fs::read_to_string(path).unwrap()).unwrap();
     let a = case["args"].clone();
+    if case["driver"].as_str() == Some("access_tuple") {
+        // `(e0, .., en).index`: type-check, and if accepted compare the promised type with the element's own type
+        let kinds: Vec<u64> = a["kinds"].as_array().unwrap().iter().map(|k| k.as_u64().unwrap_or(0)).collect();
+        let elems: Vec<Value> = kinds.iter().map(|k| match k { 0 => Value::Integer(7), 1 => Value::Boolean(true), _ => Value::String("s".into()) }).collect();
+        let idx = a["index"].as_i64().unwrap_or(0);
+        let args = vec![Value::Tuple(Arc::new(elems.clone())), Value::Integer(idx)];
+        let ctx: ScriptContextRef = Default::default();
+        let r = catch_unwind(AssertUnwindSafe(|| Access::stub().signature(ctx.clone(), &args)));
+        match r {
+            Err(_) => println!("VERIF-OUTCOME {}", serde_json::json!({"sig_panicked": true, "panicked": true, "sig_ok": false})),
+            Ok(Err(e)) => println!("VERIF-OUTCOME {}", serde_json::json!({"sig_panicked": false, "panicked": false, "sig_ok": false, "err": e.to_string()})),
+            Ok(Ok(t)) => {
+                let m = idx >= 0 && (idx as usize) < elems.len() && elems[idx as usize].type_of(ctx.clone()).map(|x| x == t).unwrap_or(false);
+                println!("VERIF-OUTCOME {}", serde_json::json!({"sig_panicked": false, "panicked": false, "sig_ok": true, "sig": t.to_string(), "type_matches_element": m}));
+            }
+        }
+        return;
+    }
     let name = a["op"].as_str().unwrap().to_string();
-    let args: Vec<Value> = a["operands"].as_array().unwrap().iter().map(mk).collect();
+    // operands of class "bound"/"bound_array" are names bound by a real `let` scope around the operator
+    let mut vars: Vec<Value> = vec![];
+    let args: Vec<Value> = a["operands"].as_array().unwrap().iter().enumerate().map(|(k, o)| {
+        let v = mk(o);
+        if o["class"].as_str().map(|c| c.starts_with("bound")).unwrap_or(false) {
+            let id = format!("v_arg{}", k);
+            vars.push(Value::Tuple(Arc::new(vec![Value::Identifier(id.clone()), v])));
+            Value::Identifier(id)
+        } else { v }
+    }).collect();
     let ctx: ScriptContextRef = Default::default();
+    let ctx = if vars.is_empty() { ctx } else { Scope::make_context(&vars, ctx).unwrap() };
     let r = ops!(name.as_str(), ctx, &args, Not, BitNot, Negative, Plus, Minus, Multiply, Divide, Mod, BitAnd, BitOr, BitXor, ShiftLeft, ShiftRight,
-                 ShiftRightUnsigned, And, Or, Xor, Greater, GreaterOrEqual, Lesser, LesserOrEqual, Equal, NotEqual, ToString, ToInteger);
+                 ShiftRightUnsigned, And, Or, Xor, Greater, GreaterOrEqual, Lesser, LesserOrEqual, Equal, NotEqual, ToString, ToInteger, Split, StringConcat, Index);
     match r {
         None => println!("VERIF-OUTCOME {}", serde_json::json!({"unknown_op": name})),
         Some((sig, None)) => println!("VERIF-OUTCOME {}", serde_json::json!({"sig_ok": false, "sig": sig.err(), "panicked": false})),
